@@ -4,6 +4,7 @@ A case is one wrapped function plus everything observed about it:
   {'args': [1,2,3], 'defaults': [12,13], 'varargs': 7|None, 'kwonly': [4,5], 'kwdefaults': [[5,25]],
    'varkw': 9|None, 'ann': [[1,31]], 'ret': 39|None, 'async': 0|1, 'doc': 5|None, 'module': 2|None,
    'injected': [2], 'expected': [[6, None], [8, 41]], 'opts': [inject_to_varkw, hide_wrapped],
+   'twice': 1 (the same wraps()/from_func() request is made twice on the same function; the second result is observed),
    'stack': n (the built function is wrapped again, plainly, n-1 more times; default 1),
    'form': 0..5 (how injected/expected are spelled: list / str / dict / update_wrapper() / tuple+list pairs / iterators),
    'calls': [[[101,102], [[4,110]]], ...]}
@@ -200,7 +201,10 @@ class C13(Property):
             '(thorough <=4 / <=2) x {plain, every single injected name, missing name, expected with/without '
             'default, clashes, inject+expect} x all call shapes; all builder histories of <=2 ops over a 9-12 '
             'letter alphabet on signatures with <=2 positional; parameters/functions spelled _call, _func, __call; '
-            'random: up to 6 positional / 4 keyword-only, multi-step injected+expected, histories of <=6 ops. '
+            'sync and async for every combination; by a rotating counter: annotations, docstring, module, falsy / None '
+            '/ always-equal default values (compared by identity), decorators stacked 2-3 deep, the same request made '
+            'twice, six spellings of injected/expected; a lambda; random: up to 6 positional / 4 keyword-only, '
+            'multi-step injected+expected, histories of <=6 ops, stacks <=4. '
             'Non-trivial = the builder produced a function and either the call list contains both an accepted '
             'and a rejected call or the signature was modified; distinct = distinct case.')
     ASSUMPTIONS = ['no positional-only parameters; the wrapped object is a plain function (no partial / '
@@ -301,6 +305,8 @@ class C13(Property):
                         c['opts'] = [1, 1]
                     if i % 3 == 1:
                         c['stack'] = 2 + (i // 3) % 2       # decorators stacked 2 or 3 deep
+                    if i % 2:
+                        c['twice'] = 1                      # the same request was made before
                     c['calls'] = calls
                     yield c
         for c in self.hygiene_cases():
@@ -331,6 +337,8 @@ class C13(Property):
                 i += 1
                 c = self.decorate(sig, i)
                 c['ops'] = ops
+                if i % 2:
+                    c['twice'] = 1
                 c['calls'] = self.random_calls(rng, names, len(sig['args']) + 2, len(sig['args']) - len(sig['defaults']), 6)
                 yield c
 
@@ -462,6 +470,8 @@ class C13(Property):
             c.update(ann=[], ret=None, doc=None, **{'async': 0})
         if rng.random() < 0.25:
             c['stack'] = rng.choice([2, 2, 3, 4])
+        if rng.random() < 0.3:
+            c['twice'] = 1
         return c
 
     # ------------------------------------------------------------------ model line
@@ -566,6 +576,13 @@ class C13(Property):
         self._fn_ref = fn_ref
         if history:
             try:
+                if case.get('twice'):       # the same function handed to the builder before: nothing may be remembered
+                    fb0 = funcutils.FunctionBuilder.from_func(fn)
+                    for op in case['ops']:
+                        try:
+                            fb0.remove_arg(pn(op[1])) if op[0] == 'r' else fb0.add_arg(pn(op[1]))
+                        except ValueError:
+                            break
                 fb = funcutils.FunctionBuilder.from_func(fn)
                 for op in case['ops']:
                     if op[0] == 'r':
@@ -598,6 +615,12 @@ class C13(Property):
             kw['inject_to_varkw'] = False
         if case['opts'][1]:
             kw['hide_wrapped'] = True
+        if case.get('twice'):               # the same request made before on the same function: nothing may be remembered
+            try:
+                funcutils.wraps(fn, injected=inj_arg, expected=exp_arg, **kw)(wrapper)
+            except Exception:
+                pass
+            inj_arg, exp_arg = self.spell(case)
         try:
             if case.get('form', 0) == 3:
                 w = funcutils.update_wrapper(wrapper, fn, injected=inj_arg, expected=exp_arg, **kw)
@@ -722,6 +745,7 @@ class C13(Property):
         anns = ','.join('%s:%s' % (num(p[0]), '-' if p[3] is None else p[3]) for p in ws['params'])
         anns += ' r:%s' % ('-' if ws['ret'] is None else ws['ret'])
         d_txt, i_txt = [''.join(t.split()) for t in self.source_parts(obs['source'])]   # modulo white space
+        i_txt = self.sort_kw_items(i_txt)
         outs = []
         plain = not hist and not case['injected'] and not case['expected']
         for o in obs['calls']:
@@ -729,7 +753,7 @@ class C13(Property):
                 outs.append('E' if o['via'] == 'TypeError' else '!%s' % (o['via'],))
                 continue
             ra, rk = o['recv']
-            txt = 'R%s/%s' % (','.join(map(str, ra)) or '-', ','.join('%s:%s' % (num(k), v) for k, v in rk) or '-')
+            txt = 'R%s/%s' % (','.join(map(str, ra)) or '-', self.kw_text(rk))
             if o.get('nrecv', 1) != 1:
                 txt += '#%d' % o['nrecv']
             if plain:
@@ -759,7 +783,24 @@ class C13(Property):
         return 'N %s ; Q %s ; DD %s ; D %s ; I %s' % (
             ','.join(num(n) for n in fb['names']) or '-', ','.join(num(n) for n in fb['required']) or '-',
             ','.join('%s:%s' % (num(n), '-' if d is None else d) for n, d in fb['dd']), txt(fb['sig_str']),
-            '(' + txt(fb['inv_str']) + ')')
+            self.sort_kw_items('(' + txt(fb['inv_str']) + ')'))
+
+    def kw_text(self, pairs):
+        """keyword arguments sorted by parameter id (the order keywords are spelled in never matters for binding)"""
+        ps = [(name_id(k), k, v) for k, v in pairs]
+        ps.sort(key=lambda t: (t[0] is None, t[0] if t[0] is not None else 0, str(t[1])))
+        return ','.join('%s:%s' % (self._num(k), v) for _n, k, v in ps) or '-'
+
+    @staticmethod
+    def sort_kw_items(txt):
+        """`(p1,*p7,p15=p15,p14=p14,**p9)` -> the k=v items sorted in place by parameter id"""
+        if not (txt.startswith('(') and txt.endswith(')')) or '(' in txt[1:-1]:
+            return txt
+        items = txt[1:-1].split(',') if txt[1:-1] else []
+        kws = sorted((it for it in items if '=' in it),
+                     key=lambda it: int(it.split('=')[0][1:]) if it.split('=')[0][1:].isdigit() else -1)
+        it_kws = iter(kws)
+        return '(' + ','.join(next(it_kws) if '=' in it else it for it in items) + ')'
 
     def bound_text(self, case, loc):
         """locals of the wrapped function -> `pos|star|kwo|dstar` in signature order"""
@@ -768,7 +809,7 @@ class C13(Property):
         kwo = ','.join('%d:%s' % (n, named[n]) for n in case['kwonly'] if n in named) or '-'
         extra = [n for n in named if n not in case['args'] and n not in case['kwonly']]
         st = '~' if loc['star'] is None else (','.join(map(str, loc['star'][1])) or '-')
-        ds = '~' if loc['dstar'] is None else (','.join('%s:%s' % (self._num(k), v) for k, v in loc['dstar'][1]) or '-')
+        ds = '~' if loc['dstar'] is None else self.kw_text(loc['dstar'][1])
         txt = '%s|%s|%s|%s' % (pos, st, kwo, ds)
         if extra or loc.get('odd'):
             txt += '!extra'
@@ -780,10 +821,11 @@ class C13(Property):
         rewritten to p<id> so that the text is the driver's"""
         if not isinstance(src, str):
             return '?nosource', '?nosource'
-        lines = src.split('\n')
-        m = re.match(r'^(?:async )?def \w+(\(.*\)):$', lines[0])
-        d_txt = m.group(1) if m else '?' + lines[0]
-        m = re.match(r'^\s*return (?:await )?_+call(\(.*\))$', lines[1]) if len(lines) == 2 else None
+        lines = [ln for ln in src.split('\n') if ln.strip()]
+        m = re.match(r'^(?:async )?def \w+\s*(\(.*\))\s*:\s*$', lines[0]) if lines else None
+        d_txt = m.group(1) if m else '?' + (lines[0] if lines else '')
+        # the body: `return [await] <the name the user's wrapper goes by>(<invocation>)`
+        m = re.match(r'^\s*return\s+(?:await\s+)?\w+\s*(\(.*\))\s*$', lines[1]) if len(lines) == 2 else None
         i_txt = m.group(1) if m else '?' + '|'.join(lines[1:])
 
         def ident(mm):
@@ -967,6 +1009,8 @@ class C13(Property):
             yield dict(case, form=0)
         if case.get('stack', 1) > 1:
             yield dict(case, stack=case['stack'] - 1)
+        if case.get('twice'):
+            yield dict(case, twice=0)
         if len(calls) == 1:
             pos, kws = calls[0]
             if pos:
